@@ -1,6 +1,7 @@
 package harness
 
 import (
+	"errors"
 	"fmt"
 
 	netty "github.com/go-netty/go-netty"
@@ -21,10 +22,21 @@ type lstRec struct {
 	Err        error
 	CloseCalls int
 	EndSeq     int64
+	DupDone    bool
+	DupErr     error
 }
 
 //go:norace
 func (l *lstRec) end(e *Env, err error) { l.Ended, l.Err, l.EndSeq = true, err, e.Sim.NextEv() }
+
+// dup records the result of a second Async on the same listener: one of the two callbacks runs the accept loop,
+// the other is told "duplicate call"; which is which depends on the schedule.
+//
+//go:norace
+func (l *lstRec) dup(e *Env, err error) {
+	l.DupDone, l.DupErr = true, err
+	e.Count("duplicate_async_returned", 1)
+}
 
 //go:norace
 func (l *lstRec) started() { l.Started = true }
@@ -53,7 +65,21 @@ func (s *shutRec) ret(e *Env) { s.Ret = e.Sim.NextEv() }
 //go:norace
 func runC13(e *Env) {
 	cc := e.drawChan(true, []int{2, 8})
-	rig := e.NewBRig(cc, true, e.P(3) == 2, nil)
+	panicActive := e.P(6) == 5 // a user handler panics in HandleActive; the exception is consumed, the channel stays open
+	rig := e.NewBRig(cc, true, e.P(3) == 2, func(ch netty.Channel, p *Probe) []netty.Handler {
+		if panicActive {
+			p.Swallow = true
+			p.OnActive = func(ctx netty.ActiveContext) { panic("user active handler failed") }
+		}
+		return nil
+	})
+	// rare paths of the listener: a first Listen that fails and is retried, a duplicate Async, a failing Accept
+	listenFail := e.P(8) == 7
+	if listenFail {
+		rig.F.ListenErr, rig.F.ListenFailN = errors.New("bind: address temporarily unavailable (simulated)"), 1
+	}
+	dupAsync := e.P(8) == 7
+	acceptFail := e.P(8) == 7
 	nL := e.P(4)
 	nC := e.P(4)
 	nD := e.P(3)
@@ -75,7 +101,7 @@ func runC13(e *Env) {
 	for _, l := range lsts {
 		modes = append(modes, l.Mode)
 	}
-	e.Describe("channel=%s listeners=%d(modes %v, explicit Close %v) connects=%d external-dials=%d shutdown-after-steps=%d", cc, nL, modes, lclose, nC, nD, shutDelay)
+	e.Describe("channel=%s listeners=%d(modes %v, explicit Close %v) connects=%d external-dials=%d shutdown-after-steps=%d first-listen-fails=%v duplicate-async=%v accept-fault=%v panicking-active-handler=%v", cc, nL, modes, lclose, nC, nD, shutDelay, listenFail, dupAsync, acceptFail, panicActive)
 	sh := &shutRec{}
 	e.Go("main", func() {
 		for i, l := range lsts {
@@ -87,7 +113,20 @@ func runC13(e *Env) {
 				l.L.Async(func(err error) { l.end(e, err) })
 			case 1:
 				l.started()
-				e.Go(fmt.Sprintf("sync%d", i), func() { l.end(e, l.L.Sync()) })
+				e.Go(fmt.Sprintf("sync%d", i), func() {
+					err := l.L.Sync()
+					if listenFail && err != nil && err != netty.ErrServerClosed {
+						e.Count("listen_failed_then_retried", 1)
+						err = l.L.Sync() // retry after the failed bind
+					}
+					l.end(e, err)
+				})
+			}
+			if dupAsync && l.Mode != 2 && i == 0 {
+				e.Go("dup-async", func() {
+					e.Step()
+					l.L.Async(func(err error) { l.dup(e, err) })
+				})
 			}
 			if lclose[i] {
 				e.Go(fmt.Sprintf("lclose%d", i), func() {
@@ -114,6 +153,18 @@ func runC13(e *Env) {
 					e.Count("external_dial_queued", 1)
 				} else {
 					e.Count("external_dial_refused", 1)
+				}
+			})
+		}
+		if acceptFail {
+			e.Go("accept-fault", func() {
+				for w := 0; w < 6; w++ {
+					e.Step()
+					for _, a := range rig.F.Acceptors {
+						if a.FailAt == 0 {
+							a.FailAt = 2 // the second Accept call of this acceptor fails with a transient error
+						}
+					}
 				}
 			})
 		}
@@ -163,7 +214,11 @@ func runC13(e *Env) {
 			e.Violate("accept-loop-ends", fmt.Sprintf("mode=%d", l.Mode), "listener %d (%s): accept loop never ended after Shutdown", i, l.URL)
 			continue
 		}
-		if l.Err != netty.ErrServerClosed && l.CloseCalls == 0 {
+		if l.DupDone && l.DupErr == netty.ErrServerClosed {
+			continue // the duplicate Async call was the one that ran the accept loop, and it ended as required
+		}
+		if l.Err != netty.ErrServerClosed && l.CloseCalls == 0 && !(l.EndSeq < sh.Inv) && !listenFail && !acceptFail {
+			// (a loop that ended before Shutdown began - failed Accept, failed Listen - ended with its own error)
 			e.Violate("accept-loop-ends", "wrong-error", "listener %d (%s): accept loop ended with %q instead of the server-closed error", i, l.URL, errStr(l.Err))
 		}
 	}
